@@ -2,7 +2,7 @@
    documented defects are rejected by constructor and validator alike. *)
 From Model Require Import Bytes Prim Tables Cert KAC Mapping Sig LS Validate.
 From Gen Require Import Tables Validators.
-From Proofs Require Import CtorProofs MappingProofs CtorRT ValidatorTie.
+From Proofs Require Import BytesLemmas CtorProofs MappingProofs CtorRT ValidatorTie ElsChain.
 Open Scope Z_scope.
 
 Theorem C14_signature : forall d t s, new_signature_from_bytes d t = Ok s ->
@@ -137,3 +137,26 @@ Theorem C14_source_ls2_validate_spec : forall l, Forall (fun k => (ek_type k < 6
   Bool.eqb (has_offline (l2_flags l)) (match l2_offline l with Some _ => true | None => false end) &&
   (Z.land (Z.of_N (l2_flags l)) 65528 =? 0) && (Z.of_nat (length (l2_leases l)) <=? 16).
 Proof. exact ls2_validate_spec. Qed.
+
+(* ---- EncryptedLeaseSet: the whole chain ---- *)
+(* every value the reader returns satisfies the (regenerated) validation and re-serialises to
+   bytes that parse back, with an empty remainder, to the same value *)
+Theorem C14_els_parsed_value_parses_back : forall d l r, wf d -> read_encrypted_lease_set d = Ok (l, r) ->
+  els_validate l = true /\ read_encrypted_lease_set (els_bytes l) = Ok (l, []).
+Proof. intros d l r W H. split; [exact (proj1 (read_els_inv d l r W H))|exact (read_els_reparse d l r W H)]. Qed.
+Print Assumptions C14_els_parsed_value_parses_back.
+(* any validated value whose fields fit their wire widths: Bytes() followed by anything parses
+   back to it and leaves what followed *)
+Theorem C14_els_validated_value_round_trips : forall l r, els_validate l = true -> els_fits l ->
+  read_encrypted_lease_set (els_bytes l ++ r) = Ok (l, r).
+Proof. exact els_accept. Qed.
+(* from constructor arguments: what the constructor's (regenerated) checks accept, with the
+   signature it then stores, validates and round-trips *)
+Theorem C14_els_constructor_chain : forall st key pub e f off inner sg r,
+  g_encrypted_leaseset_validateInputs (Z.of_N st) key (Z.of_N e) (Z.of_N f) (option_map view_off off) inner = true ->
+  sig_validate sg = true ->
+  els_fits (mkELS st key pub e f off (N.of_nat (length inner) mod 65536) inner sg) ->
+  let l := mkELS st key pub e f off (N.of_nat (length inner) mod 65536) inner sg in
+  els_validate l = true /\ read_encrypted_lease_set (els_bytes l ++ r) = Ok (l, r).
+Proof. exact els_ctor_chain. Qed.
+Print Assumptions C14_els_constructor_chain.
